@@ -3,7 +3,7 @@
 From Coq Require Extraction.
 From Coq Require Import ExtrOcamlBasic.
 From RainVerif Require Import Params.
-From RainVerif.model Require Import Bytes Crc Log LogScript Bloom FilterBlock Key Block Table TableSpec Version Lsm LsmSpec DbSpec LockOwner Cursor.
+From RainVerif.model Require Import Bytes Crc Log LogScript Bloom FilterBlock Key Block Table TableSpec Version Lsm LsmSpec DbSpec LockOwner Cursor Conc.
 
 Extraction Language OCaml.
 
@@ -19,4 +19,5 @@ Extraction "../ocaml/model.ml"
   apply_edit files_of lsm_step lsm_init db_get_at visible shape_ok all_entries compact_entries inputs_closed version_wf
   spec_run spec_init contents user_keys lsm_wf_b
   LockOwner.step world_init
-  d_run d_new iter_children m_run m_new cursor_run.
+  d_run d_new iter_children m_run m_new cursor_run
+  cstep spawn c_init pc_of spec_get.
